@@ -368,3 +368,83 @@ M('c09-unquote-string-strips-dquotes', 'C09', 'R13', 'falcon/util/uri.py',
 M('c09-unquote-string-drops-backslashes-first', 'C09', 'R13', 'falcon/util/uri.py',
   "        return '\\\\'.join([q.replace('\\\\', '') for q in tmp_quoted.split(r'\\\\')])\n",
   "        return tmp_quoted.replace('\\\\', '')\n")
+
+# ---- wave 7: R14 the default port / port elision follow the scheme (s7-c09-1)
+_SECURE = "        return self.scheme == 'https' or self.scheme == 'wss'\n"
+# the seed: 'ws' also ends in 's'
+M('c09-asgi-secure-scheme-endswith-s', 'C09', 'R14', 'falcon/asgi/request.py', _SECURE, "        return self.scheme.endswith('s')\n")
+# variants: everything but plain http counts as secure; the websocket TLS scheme is forgotten; last character
+M('c09-asgi-secure-scheme-not-http', 'C09', 'R14', 'falcon/asgi/request.py', _SECURE, "        return self.scheme != 'http'\n")
+M('c09-asgi-secure-scheme-https-only', 'C09', 'R14', 'falcon/asgi/request.py', _SECURE, "        return self.scheme == 'https'\n")
+M('c09-asgi-secure-scheme-last-char', 'C09', 'R14', 'falcon/asgi/request.py', _SECURE, "        return self.scheme[-1] == 's'\n")
+# the WSGI side: the elision of the default port tests the wrong scheme
+M('c09-wsgi-netloc-elides-443-for-http', 'C09', 'R14', 'falcon/request.py',
+  "            if self.scheme == 'https':\n                if port != '443':", "            if self.scheme == 'http':\n                if port != '443':")
+# the ASGI default port of a Host header without port is taken for the wrong branch
+M('c09-asgi-port-default-swapped', 'C09', 'R14', 'falcon/asgi/request.py',
+  """            host_header = self._asgi_headers[b'host'].decode('latin1')
+            default_port = 443 if self._secure_scheme else 80
+""", """            host_header = self._asgi_headers[b'host'].decode('latin1')
+            default_port = 80 if self._secure_scheme else 443
+""")
+
+# ---- wave 7: R15 (= C06 R15) one memoised consumption site for scope['client'] (s7-c09-2)
+M('c09-asgi-remote-addr-reads-scope-client-directly', 'C09', 'R15', 'falcon/asgi/request.py',
+  """        route = self.access_route
+        return route[-1]
+""", """        if self._cached_access_route is not None:
+            return self._cached_access_route[-1]
+
+        try:
+            client, __ = self.scope['client']
+        except KeyError:
+            client = '127.0.0.1'
+
+        return client
+""")
+# variant: the memoised site for scope['server'] loses its guard on websocket connections (consumed on every access of port / netloc)
+M('c09-asgi-server-address-reread-on-websocket', 'C09', 'R15', 'falcon/asgi/request.py',
+  "        if not self._asgi_server_cached:\n", "        if not self._asgi_server_cached or self.is_websocket:\n")
+
+# ---- wave 7: R16 integer indices into header text only where the text is known long enough (s7-c09-3)
+# the seed: slices -> indices; the opaque-tag is empty when the whole header is the weak prefix
+M('c09-etag-loads-indexes-possibly-empty-value', 'C09', 'R16', 'falcon/util/structures.py',
+  """        if value[:1] == value[-1:] == '"':""", """        if value[0] == value[-1] == '"':""")
+# variant: only the first character is indexed
+M('c09-etag-loads-indexes-first-char', 'C09', 'R16', 'falcon/util/structures.py',
+  """        if value[:1] == value[-1:] == '"':""", """        if value[0] == '"' and value.endswith('"'):""")
+# variant: the length guard of the cookie un-quoting is dropped (a cookie with an empty value)
+M('c09-cookie-unquote-without-length-guard', 'C09', 'R16', 'falcon/request_helpers.py',
+  """        if len(value) > 2 and value[0] == '"' and value[-1] == '"':""", """        if value[0] == '"' and value[-1] == '"':""")
+# variant: unquote_string tests the quotes before the length
+M('c09-unquote-string-quotes-before-length', 'C09', 'R16', 'falcon/util/uri.py',
+  """    if len(quoted) < 2:
+        return quoted
+    elif quoted[0] != '"' or quoted[-1] != '"':""", """    if quoted[0] != '"' or quoted[-1] != '"':
+        return quoted
+    elif len(quoted) < 2:""")
+# variant: the guard is there but speaks about the value BEFORE the weak prefix was cut off (stale fact)
+M('c09-etag-loads-stale-nonempty-guard', 'C09', 'R16', 'falcon/util/structures.py',
+  """        value = etag_str
+
+        is_weak = False
+        if value.startswith(('W/', 'w/')):
+            is_weak = True
+            value = value[2:]
+
+        # NOTE(kgriffs): We allow for an unquoted entity-tag just in case,
+        #   although it has been non-standard to do so since at least 1999
+        #   with the advent of RFC 2616.
+        if value[:1] == value[-1:] == '"':""", """        value = etag_str
+        if not value:
+            return cls('')
+
+        is_weak = False
+        if value.startswith(('W/', 'w/')):
+            is_weak = True
+            value = value[2:]
+
+        # NOTE(kgriffs): We allow for an unquoted entity-tag just in case,
+        #   although it has been non-standard to do so since at least 1999
+        #   with the advent of RFC 2616.
+        if value[0] == value[-1] == '"':""")
